@@ -2773,6 +2773,15 @@ class Cond(Generic[X, R], GFI[X, R]):
         **kwargs,
     ) -> tuple[Trace[X, R], Weight, X]:
         (check, *rest_args) = args
+        # Addresses without a constraint keep the value that was visible before
+        # the update, also when the condition changes: both branches are handed
+        # the previously visible choices (as when this Cond is called at an
+        # address of a @gen function), overridden by the constraints.
+        visible = tr.get_choices()
+        if x is None:
+            x = visible
+        elif isinstance(x, dict) and isinstance(visible, dict):
+            x, _ = self.callee.merge(visible, x)
         new_tr, w, discard = self.callee.update(tr.trs[0], x, *rest_args, **kwargs)
         new_tr_, w_, discard_ = self.callee_.update(tr.trs[1], x, *rest_args, **kwargs)
         # The discard holds what was visible before the update: the values of
